@@ -1032,11 +1032,14 @@ def regex_kernels(ctx):
     DEMOS = [('(extract_regex_group "10-20" "([0-9]+)-([0-9]+)" 1)', '10'), ('(extract_regex_group "10-20" "([0-9]+)-([0-9]+)" 2)', '20'), ('(extract_regex_group "10-20" "([0-9]+)-([0-9]+)" 0)', '10-20'),
              ('(extract_regex_group "10-20" "([0-9]+)-([0-9]+)" 3)', 'nothing'), ('(extract_regex_group "10-20" "([0-9]+)-([0-9]+)" 20)', 'nothing'), ('(extract_regex_group "abc" "([0-9]+)|([a-z]+)" 1)', 'nothing'),
              ('(extract_regex_group "abc" "([0-9]+)|([a-z]+)" 2)', 'abc'), ('(extract_regex_group "x=" "([a-z])=([0-9])?" 2)', 'nothing'), ('(extract_regex_group "zzz" "([0-9]+)" 1)', 'nothing'), ('(extract_regex_group "a" "(" 0)', 'nothing'),
-             ('(extract_regex_group "a" "a" -1)', 'nothing'), ('(extract_regex_group 1 "a" 0)', 'nothing'), ('(match_regex "abc" "b")', True), ('(match_regex "abc" "^b")', False), ('(match_regex "abc" "(")', 'nothing'), ('(match_regex 1 "1")', 'nothing')]
+             ('(extract_regex_group "a" "a" -1)', 'nothing'), ('(extract_regex_group 1 "a" 0)', 'nothing'), ('(match_regex "abc" "b")', True), ('(match_regex "abc" "^b")', False), ('(match_regex "abc" "(")', 'nothing'), ('(match_regex 1 "1")', 'nothing'),
+             # the pattern is an argument like any other: evaluated for every value, in that value's context
+             ('(match_regex .s (default .pattern "^[a-z]+$"))', True, '{"s":"123","pattern":"^[0-9]+$"}'), ('(match_regex .s (default .pattern "^[a-z]+$"))', False, '{"s":"abc","pattern":"^[0-9]+$"}'),
+             ('(match_regex .s (if (string? .p) .p "x"))', True, '{"s":"yyy","p":"^y+$"}'), ('(extract_regex_group .s (default .p "(a)") 1)', 'b', '{"s":"b","p":"(b)"}'), ('(map .l (match_regex . ^.p))', [True, False], '{"l":["aa","b"],"p":"^a+$"}')]
     for c in allc:
         c.status = 'unit'
-        for expr, exp in DEMOS:
-            r = run_jawk(ctx, ['--select', expr + '=r', '--style', 'consise'], b'{}')
+        for expr, exp, *stdin_ in DEMOS:
+            r = run_jawk(ctx, ['--select', expr + '=r', '--style', 'consise'], (stdin_[0] if stdin_ else '{}').encode())
             out = shw(r['stdout']).strip()
             try: got = json.loads(out).get('r', 'nothing')
             except Exception: got = 'unparsable:' + out
